@@ -512,8 +512,7 @@ func oracle(ops, outs []string) *corr.Violation {
 				why = "-alias"
 			}
 			return mk(o.sigTag()+"-state-depends-on-map-order"+why, fmt.Sprintf("%q executed twice on the same prior state: %s", o.op, o.replayDetail))
-		case o.replayDiff == "output":
-			return mk(o.sigTag()+"-error-depends-on-map-order", fmt.Sprintf("%q executed twice on the same prior state: %s", o.op, o.replayDetail))
+		// (a failing call whose error TEXT differs between runs leaves the settings alone: that is C06's subject — outputs — not C48's)
 		case o.validateErr != "":
 			return mk(o.tag+"-"+strings.Replace(o.kind, "taint", "update", 1)+"-saved-invalid-config", fmt.Sprintf("%q succeeded and the stored configuration fails the contract's own validate: %s", o.op, o.validateErr))
 		case len(o.newCost) > 0:
